@@ -175,4 +175,26 @@ mod verif_c14 {
         let st = base().progress_chars("a\u{4e16}");
         std::mem::forget(st);
     }
+
+    // @harness id=C14 tier=quick timeout=600 mem=6 kind=should_panic
+    // @bounds tick_chars with ONE multi-byte character ("\u{2801}", 3 bytes) must panic in the builder (the count is in characters, not bytes)
+    #[kani::proof]
+    #[kani::unwind(12)]
+    #[kani::should_panic]
+    #[kani::stub(std::hash::RandomState::new, stub_rs)]
+    fn c14_reject_tick_chars_1_multibyte() {
+        let st = base().tick_chars("\u{2801}");
+        std::mem::forget(st);
+    }
+
+    // @harness id=C14 tier=quick timeout=900 mem=8 kind=should_panic
+    // @bounds progress_chars with ONE multi-byte character ("\u{2588}") must panic in the builder
+    #[kani::proof]
+    #[kani::unwind(12)]
+    #[kani::should_panic]
+    #[kani::stub(std::hash::RandomState::new, stub_rs)]
+    fn c14_reject_progress_chars_1_multibyte() {
+        let st = base().progress_chars("\u{2588}");
+        std::mem::forget(st);
+    }
 }
